@@ -549,10 +549,12 @@ func clientRoundtrip(c *Ctx, op, proto, kind string, rec recorded, h, t hdr, sen
 	cdecEmit(c, proto, kind, r, v)
 }
 
-func cdecLine(proto, kind string, r *sresp) string {
+func cdecLine(proto, kind string, r *sresp) string { return cdecLineMax(proto, kind, 0, r) }
+
+func cdecLineMax(proto, kind string, max int, r *sresp) string {
 	stext := strconv.Itoa(r.status) + " " + http.StatusText(r.status)
-	return fmt.Sprintf("cdec proto=%s kind=%s accepts=gzip,rle max=0 stext=%s status=%d hdr=%s body=%s trl=%s",
-		proto, kind, hx([]byte(stext)), r.status, showHdr(r.header), showBody(r.body), showHdr(r.trailer))
+	return fmt.Sprintf("cdec proto=%s kind=%s accepts=gzip,rle max=%d stext=%s status=%d hdr=%s body=%s trl=%s",
+		proto, kind, max, hx([]byte(stext)), r.status, showHdr(r.header), showBody(r.body), showHdr(r.trailer))
 }
 
 func cdecEmit(c *Ctx, proto, kind string, r *sresp, v clientView) {
@@ -567,11 +569,35 @@ func cdecOp(c *Ctx, op string) {
 	r := &sresp{status: atoi(a["status"]), header: parseHdr(a["hdr"]), body: parseBody(a["body"]), trailer: parseHdr(a["trl"])}
 	header, body, trailer := r.serialize(proto)
 	var v clientView
+	max := atoi(a["max"])
 	ans := safely(func() string {
 		sc := &staticClient{status: r.status, header: header, trailer: trailer, body: body}
-		v = callClient(proto, kind, sc, nil, [][]byte{{}})
+		v = callClient(proto, kind, sc, nil, [][]byte{{}}, connect.WithReadMaxBytes(max))
 		return showView(kind, v)
 	})
+	// C09: nothing larger than the read limit reaches the application
+	if max > 0 {
+		for _, m := range v.msgs {
+			if len(m) > max {
+				c.Fail("limit-client-oversize-delivered", op, ans, fmt.Sprintf("the client delivered a %d-byte message although its read limit is %d", len(m), max))
+			}
+		}
+	}
+	// C04: success only if the protocol's terminator arrived
+	if v.err == nil && r.status == 200 && !(proto == "connect" && kind == "unary") {
+		term := false
+		for _, it := range r.body {
+			if (proto == "connect" && it.kind == "end") || (proto == "grpcweb" && it.kind == "web") {
+				term = true
+			}
+		}
+		if proto != "connect" && (len(r.trailer["Grpc-Status"]) > 0 || len(r.header["Grpc-Status"]) > 0) {
+			term = true
+		}
+		if !term {
+			c.Fail("term-missing-success", op, ans, "the call was reported successful although the response carries no end-of-stream marker")
+		}
+	}
 	// non-200 without a valid protocol-level error: the call fails, with the code the protocol's
 	// HTTP-status table gives (tables restated here from the protocol documents)
 	carriesError := false
@@ -733,6 +759,39 @@ func extraProbes(c *Ctx) {
 					c.Fail("client-uncoded-close", "server stream on "+proto+": body fails while Close drains it", cerr.Error(), "an error returned by the client API cannot be inspected as a Connect error")
 				} else if ce.Code() == 0 {
 					c.Fail("client-zero-code", "close "+proto, cerr.Error(), "zero code")
+				}
+			}
+		}
+	}
+	// (1b) a response body that dies with an HTTP/2 RST_STREAM (any code, NO_ERROR included) at any
+	// offset is never a successful call
+	rstNames := []string{"NO_ERROR", "PROTOCOL_ERROR", "INTERNAL_ERROR", "FLOW_CONTROL_ERROR", "SETTINGS_TIMEOUT", "STREAM_CLOSED", "FRAME_SIZE_ERROR",
+		"REFUSED_STREAM", "CANCEL", "COMPRESSION_ERROR", "CONNECT_ERROR", "ENHANCE_YOUR_CALM", "INADEQUATE_SECURITY", "HTTP_1_1_REQUIRED"}
+	for _, proto := range []string{"connect", "grpc", "grpcweb"} {
+		for _, kind := range []string{"unary", "server"} {
+			full := frame(0, []byte{1, 2, 3, 4, 5, 6})
+			switch {
+			case proto == "connect" && kind == "unary":
+				full = []byte{1, 2, 3, 4, 5, 6, 7, 8}
+			case proto == "connect":
+				full = append(full, frame(2, []byte("{}"))...)
+			case proto == "grpcweb":
+				full = append(full, frame(0x80, []byte("grpc-status: 0\r\n"))...)
+			}
+			for _, name := range rstNames {
+				for cut := 0; cut <= len(full); cut++ {
+					if cut == len(full) && proto != "grpc" && !(proto == "connect" && kind == "unary") {
+						continue // the terminator arrived completely: the reset comes too late to matter
+					}
+					rst := errors.New("stream error: stream ID 1; " + name + "; received from peer")
+					bc := &bodyClient{status: 200, header: http.Header{"Content-Type": {ctFor(proto, kind, "raw")}}, body: &failingBody{data: append([]byte{}, full[:cut]...), err: rst}}
+					v := callClient(proto, kind, bc, nil, [][]byte{{}})
+					c.Count("probe-rst")
+					if v.err == nil {
+						c.Fail("term-rst-accepted", fmt.Sprintf("%s %s response reset with %s after %d of %d body bytes", proto, kind, name, cut, len(full)), showView(kind, v), "a response whose body was reset by the peer was reported as a successful call")
+					} else if connect.CodeOf(v.err) == 0 {
+						c.Fail("client-zero-code", "rst "+name, v.err.Error(), "zero code")
+					}
 				}
 			}
 		}
@@ -986,6 +1045,57 @@ func mutatedResponses(c *Ctx) {
 				cdecOp(c, cdecLine(proto, kind, &sresp{status: 200, header: hdr{"Content-Type": {ct}, "Connect-Content-Encoding": {"br"}}, body: []bodyItem{{kind: "end", header: hdr{}}}}))
 				cdecOp(c, cdecLine(proto, kind, &sresp{status: 200, header: hdr{"Content-Type": {ct}}, body: []bodyItem{{kind: "f", flags: 1, data: []byte{3, 7}}, {kind: "end", header: hdr{}}}}))
 				cdecOp(c, cdecLine(proto, kind, &sresp{status: 200, header: hdr{"Content-Type": {ct}, "Connect-Content-Encoding": {"rle"}}, body: []bodyItem{{kind: "f", flags: 1, data: []byte{3, 7}}, {kind: "end", header: hdr{}}}}))
+			}
+		}
+	}
+	// client-side read limits at every position, with and without a negotiated response encoding
+	for _, proto := range []string{"connect", "grpc", "grpcweb"} {
+		for _, kind := range kinds {
+			ct := ctFor(proto, kind, "raw")
+			encH, _ := encHeaderFor(proto, kind)
+			for _, max := range []int{32, 64} { // terminator envelopes ("{}", "Grpc-Status: 0") stay below the limit
+				for _, size := range []int{max - 1, max, max + 1, 3 * max} {
+					for _, negotiated := range []string{"", "rle", "gzip"} {
+						for pos := 0; pos < 2; pos++ {
+							h := hdr{"Content-Type": {ct}}
+							if negotiated != "" {
+								h[encH] = []string{negotiated}
+							}
+							payload := bytes.Repeat([]byte{0x42}, size)
+							var items []bodyItem
+							if proto == "connect" && kind == "unary" {
+								if pos == 1 {
+									continue
+								}
+								items = []bodyItem{{kind: "raw", data: payload}}
+								if negotiated == "rle" {
+									items = []bodyItem{{kind: "raw", data: rleCompress(payload)}}
+								} else if negotiated == "gzip" {
+									continue
+								}
+							} else {
+								for j := 0; j < pos; j++ {
+									items = append(items, bodyItem{kind: "f", data: []byte{1}})
+								}
+								items = append(items, bodyItem{kind: "f", data: payload})
+								if negotiated == "rle" && size%2 == 0 {
+									items[len(items)-1] = bodyItem{kind: "f", flags: 1, data: rleCompress(payload)}
+								}
+								switch proto {
+								case "connect":
+									items = append(items, bodyItem{kind: "end", header: hdr{}})
+								case "grpcweb":
+									items = append(items, bodyItem{kind: "web", header: hdr{"Grpc-Status": {"0"}}})
+								}
+							}
+							resp := &sresp{status: 200, header: h, body: items}
+							if proto == "grpc" {
+								resp.trailer = hdr{"Grpc-Status": {"0"}}
+							}
+							cdecOp(c, cdecLineMax(proto, kind, max, resp))
+						}
+					}
+				}
 			}
 		}
 	}
